@@ -11,6 +11,7 @@ import (
 	"os/exec"
 	"path/filepath"
 	"sort"
+	"strconv"
 	"strings"
 	"time"
 
@@ -689,6 +690,53 @@ func checkC19(e *core.Env) {
 				}
 				for missing := range want {
 					e.Violate("options/import-path-vs-mapping", fmt.Sprintf("options %q: expected output file %q was not generated", param, missing), w)
+				}
+			}
+		}
+
+		// import_path with a message-only sibling file (no go_package anywhere): both files end up in the
+		// package named on the command line, so the stubs refer to the messages without any import
+		{
+			dir := fmt.Sprintf("acme/mo%d", batch)
+			typesFD := &descriptorpb.FileDescriptorProto{Name: proto.String(dir + "/types.proto"), Package: proto.String("acme.store"), Syntax: proto.String("proto3"),
+				MessageType: []*descriptorpb.DescriptorProto{{Name: proto.String("Item")}}}
+			mtd := func(name string, cs, ss bool) *descriptorpb.MethodDescriptorProto {
+				return &descriptorpb.MethodDescriptorProto{Name: proto.String(name), InputType: proto.String(".acme.store.Item"), OutputType: proto.String(".acme.store.Item"), ClientStreaming: proto.Bool(cs), ServerStreaming: proto.Bool(ss)}
+			}
+			svcFD := &descriptorpb.FileDescriptorProto{Name: proto.String(dir + "/service.proto"), Package: proto.String("acme.store"), Syntax: proto.String("proto3"), Dependency: []string{dir + "/types.proto"},
+				Service: []*descriptorpb.ServiceDescriptorProto{{Name: proto.String("Store"), Method: []*descriptorpb.MethodDescriptorProto{mtd("Get", false, false), mtd("List", false, true), mtd("Put", true, false)}}}}
+			goPkg := genModule + "/storepb"
+			param := "legacy_stubs,import_path=" + goPkg
+			req := &pluginpb.CodeGeneratorRequest{Parameter: proto.String(param), FileToGenerate: []string{typesFD.GetName(), svcFD.GetName()}, ProtoFile: []*descriptorpb.FileDescriptorProto{typesFD, svcFD}}
+			resp, stderr, rerr := runPlugin(bin, req)
+			e.Eval("option|import_path|message-only-sibling", true)
+			w := map[string]any{"options": param, "files": req.FileToGenerate, "stderr": trunc(stderr, 400)}
+			if rerr != nil || resp.GetError() != "" {
+				e.Violate("options/refused", fmt.Sprintf("valid option set %q refused: %v %s", param, rerr, resp.GetError()), w)
+			} else {
+				found := false
+				for _, of := range resp.File {
+					if !strings.HasSuffix(of.GetName(), "service.pb.grpchan.go") {
+						continue
+					}
+					found = true
+					if of.GetName() != goPkg+"/service.pb.grpchan.go" {
+						e.Violate("options/import-path-sibling", fmt.Sprintf("options %q: output file %q, want %q", param, of.GetName(), goPkg+"/service.pb.grpchan.go"), w)
+					}
+					af, perr := parser.ParseFile(token.NewFileSet(), "x.go", of.GetContent(), parser.ImportsOnly)
+					if perr != nil {
+						e.Violate("options/import-path-sibling", "output does not parse: "+perr.Error(), w)
+						continue
+					}
+					for _, im := range af.Imports {
+						ip, _ := strconv.Unquote(im.Path.Value)
+						if strings.Contains(ip, "acme") || ip == goPkg {
+							e.Violate("options/import-path-sibling", fmt.Sprintf("options %q: the stubs for %s import %q for messages of %s, which is generated into the same package", param, svcFD.GetName(), ip, typesFD.GetName()), w)
+						}
+					}
+				}
+				if !found {
+					e.Violate("options/import-path-sibling", "no service.pb.grpchan.go in the output", w)
 				}
 			}
 		}
